@@ -24,7 +24,7 @@
 (*  opts: [pis, pid, piq, pns, pnd, pnq]  positivity of init speed /       *)
 (*        density / queue and of next speed / density / queue              *)
 (***************************************************************************)
-EXTENDS Integers, Sequences, FiniteSets, Real
+EXTENDS Laws
 LOCAL INSTANCE Folds
 
 OriginKinds == {"ideal", "mainstream", "ramp_in", "ramp_out", "simp_limited", "simp_unlimited"}
@@ -53,18 +53,18 @@ Segs(net, l)   == 1..net.links[l].N
 (* Link laws *)
 
 \* (3.1) q = rho v lambda
-Flow(net, x, l, i) == (x.rho[l][i] (.) x.v[l][i]) (.) net.links[l].lam
+Flow(net, x, l, i) == PFlow(x.rho[l][i], x.v[l][i], net.links[l].lam)
 LastFlow(net, x, l) == Flow(net, x, l, net.links[l].N)
 
 \* (3.4) V(rho) = v_free exp(-1/a (rho/rho_crit)^a)
-Veq(lk, rho) == lk.v_free (.) RExp(RNeg(One (/) lk.a) (.) RPow(rho (/) lk.rho_crit, lk.a))
+Veq(lk, rho) == PVeq(rho, lk.v_free, lk.rho_crit, lk.a)
 
 \* (3.11) speed-limited equilibrium speed; the k-th control value belongs to the
 \* k-th limited segment in increasing order
 VslIndex(lk, i) == Cardinality({j \in lk.vsl : j <= i})
 VeqEff(lk, x, u, l, i) ==
   IF lk.ctl /\ i \in lk.vsl
-  THEN RMin(Veq(lk, x.rho[l][i]), (One (+) lk.alpha) (.) u.vctrl[l][VslIndex(lk, i)])
+  THEN PCtrlVeq(x.rho[l][i], u.vctrl[l][VslIndex(lk, i)], lk.alpha, lk.v_free, lk.rho_crit, lk.a)
   ELSE Veq(lk, x.rho[l][i])
 
 -----------------------------------------------------------------------------
@@ -73,33 +73,28 @@ VeqEff(lk, x, u, l, i) ==
 \* the link leaving an origin's node (unique in a valid network)
 OLink(net, o) == Pick({l \in Links(net) : net.links[l].up = net.origins[o].node})
 
-Term3(lk, rho1) == (lk.rho_max (-) rho1) (/) (lk.rho_max (-) lk.rho_crit)
-Demand(par, x, d, o) == d.o[o] (+) (x.w[o] (/) par.T)
+Term3(lk, rho1) == PTerm3(lk.rho_max, rho1, lk.rho_crit)
+Demand(par, x, d, o) == PDemand(d.o[o], x.w[o], par.T)
 
-\* named deviation: the library clamps v_lim / v_free into [0.05, 1] before the log
-RatioGuard(r) == RMax(RQ(1, 20), RMin(One, r))
-Vcrit(lk) == Veq(lk, lk.rho_crit)
-QCap(lk) == (lk.lam (.) Vcrit(lk)) (.) lk.rho_crit
+Vcrit(lk) == PVcrit(lk.v_free, lk.rho_crit, lk.a)
+QCap(lk) == PQCap(lk.lam, lk.v_free, lk.rho_crit, lk.a)
 MainVlim(net, x, u, o) == RMin(u.o[o], x.v[OLink(net, o)][1])
-QSpeed(lk, vlim, ratio) ==
-  ((lk.lam (.) vlim) (.) lk.rho_crit) (.) RPow(RNeg(lk.a) (.) RLn(ratio), One (/) lk.a)
-\* section 3.3.3, thesis form (no guard)
-MainLimitThesis(lk, vlim) == IF RLt(vlim, Vcrit(lk)) THEN QSpeed(lk, vlim, vlim (/) lk.v_free) ELSE QCap(lk)
-MainLimit(lk, vlim) == IF RLt(vlim, Vcrit(lk)) THEN QSpeed(lk, vlim, RatioGuard(vlim (/) lk.v_free)) ELSE QCap(lk)
+MainLimit(lk, vlim) == PMainLimit(vlim, lk.lam, lk.v_free, lk.rho_crit, lk.a)
+MainLimitThesis(lk, vlim) == PMainLimitThesis(vlim, lk.lam, lk.v_free, lk.rho_crit, lk.a)
 
 OriginFlow(net, par, x, u, d, o) ==
   LET og == net.origins[o]  l == OLink(net, o)  lk == net.links[l]
   IN CASE og.kind = "ideal"          -> Flow(net, x, l, 1)
-       [] og.kind = "ramp_in"        -> RMin(Demand(par, x, d, o), og.C (.) RMin(u.o[o], Term3(lk, x.rho[l][1])))          \* (3.5)
-       [] og.kind = "ramp_out"       -> u.o[o] (.) RMin(Demand(par, x, d, o), og.C (.) RMin(One, Term3(lk, x.rho[l][1])))  \* (3.6)
-       [] og.kind = "simp_unlimited" -> u.o[o]
-       [] og.kind = "simp_limited"   -> RMin(u.o[o], RMin(Demand(par, x, d, o), og.C (.) RMin(One, Term3(lk, x.rho[l][1]))))
-       [] og.kind = "mainstream"     -> RMin(Demand(par, x, d, o), MainLimit(lk, MainVlim(net, x, u, o)))
+       [] og.kind = "ramp_in"        -> PRampFlow("in", d.o[o], x.w[o], og.C, u.o[o], lk.rho_max, x.rho[l][1], lk.rho_crit, par.T)    \* (3.5)
+       [] og.kind = "ramp_out"       -> PRampFlow("out", d.o[o], x.w[o], og.C, u.o[o], lk.rho_max, x.rho[l][1], lk.rho_crit, par.T)   \* (3.6)
+       [] og.kind = "simp_unlimited" -> PSimpFlow("unlimited", u.o[o], d.o[o], x.w[o], og.C, lk.rho_max, x.rho[l][1], lk.rho_crit, par.T)
+       [] og.kind = "simp_limited"   -> PSimpFlow("limited", u.o[o], d.o[o], x.w[o], og.C, lk.rho_max, x.rho[l][1], lk.rho_crit, par.T)
+       [] og.kind = "mainstream"     -> PMainFlow(d.o[o], x.w[o], u.o[o], x.v[l][1], lk.rho_crit, lk.a, lk.v_free, lk.lam, par.T)
 
 NodeOriginFlow(net, par, x, u, d, n) == Sum(OrigAt(net, n), LAMBDA o : OriginFlow(net, par, x, u, d, o))
 
 \* queue: w+ = w + T (d - q_o)
-NextW(net, par, x, u, d, o) == x.w[o] (+) (par.T (.) (d.o[o] (-) OriginFlow(net, par, x, u, d, o)))
+NextW(net, par, x, u, d, o) == PStepQueue(x.w[o], d.o[o], OriginFlow(net, par, x, u, d, o), par.T)
 
 -----------------------------------------------------------------------------
 (* Node rules, section 3.2.2 *)
@@ -121,8 +116,8 @@ UpSpeed(net, x, l) ==
 DownDensity(net, x, d, l) ==
   LET n == net.links[l].down  lk == net.links[l]  O == Out(net, n)  D == DestAt(net, n)
   IN IF D # {}
-     THEN LET free == RMin(x.rho[l][lk.N], lk.rho_crit)
-          IN IF net.dests[Pick(D)].kind = "free" THEN free ELSE RMax(free, d.dest[Pick(D)])
+     THEN IF net.dests[Pick(D)].kind = "free" THEN PDestFree(x.rho[l][lk.N], lk.rho_crit)
+          ELSE PDestCongested(x.rho[l][lk.N], d.dest[Pick(D)], lk.rho_crit)
      ELSE IF Cardinality(O) = 1 THEN x.rho[Pick(O)][1]
      ELSE Sum(O, LAMBDA m : x.rho[m][1] (.) x.rho[m][1]) (/) Sum(O, LAMBDA m : x.rho[m][1])
 
@@ -144,29 +139,27 @@ LaneDrop(net, par, l) == IF par.hasPhi THEN SignedLaneDifference(net, l) ELSE Ze
 NextRho(net, par, x, u, d, l, i) ==
   LET lk == net.links[l]
       qup == IF i = 1 THEN UpFlow(net, par, x, u, d, l) ELSE Flow(net, x, l, i - 1)
-  IN x.rho[l][i] (+) (((par.T (/) lk.lam) (/) lk.L) (.) (qup (-) Flow(net, x, l, i)))
+  IN PStepDensity(x.rho[l][i], Flow(net, x, l, i), qup, lk.lam, lk.L, par.T)
 
-Relax(net, par, x, u, l, i) == (par.T (/) par.tau) (.) (VeqEff(net.links[l], x, u, l, i) (-) x.v[l][i])
+Relax(net, par, x, u, l, i) == PRelax(x.v[l][i], VeqEff(net.links[l], x, u, l, i), par.tau, par.T)
 Convect(net, par, x, l, i) ==
   LET vup == IF i = 1 THEN UpSpeed(net, x, l) ELSE x.v[l][i - 1]
-  IN ((par.T (.) x.v[l][i]) (/) net.links[l].L) (.) (vup (-) x.v[l][i])
+  IN PConvect(x.v[l][i], vup, net.links[l].L, par.T)
 Anticip(net, par, x, d, l, i) ==
   LET lk == net.links[l]
       rdn == IF i = lk.N THEN DownDensity(net, x, d, l) ELSE x.rho[l][i + 1]
-  IN (((par.eta (.) par.T) (/) par.tau) (.) (rdn (-) x.rho[l][i])) (/) (lk.L (.) (x.rho[l][i] (+) par.kappa))
+  IN PAnticip(x.rho[l][i], rdn, lk.L, par.tau, par.eta, par.kappa, par.T)
 \* (3.7)
 Merge(net, par, x, u, d, l, i) ==
   LET lk == net.links[l]
   IN IF i = 1 /\ MergingApplies(net, par, l)
-     THEN (((par.delta (.) par.T) (.) NodeOriginFlow(net, par, x, u, d, lk.up)) (.) x.v[l][1])
-          (/) ((lk.L (.) lk.lam) (.) (x.rho[l][1] (+) par.kappa))
+     THEN PMerge(x.v[l][1], x.rho[l][1], NodeOriginFlow(net, par, x, u, d, lk.up), lk.lam, lk.L, par.delta, par.kappa, par.T)
      ELSE Zero
 \* (3.8)
 Drop(net, par, x, l, i) ==
   LET lk == net.links[l]
   IN IF i = lk.N /\ LaneDrop(net, par, l) # Zero
-     THEN ((((par.phi (.) par.T) (.) LaneDrop(net, par, l)) (.) x.rho[l][i]) (.) (x.v[l][i] (.) x.v[l][i]))
-          (/) ((lk.L (.) lk.lam) (.) lk.rho_crit)
+     THEN PDrop(x.v[l][i], x.rho[l][i], LaneDrop(net, par, l), lk.lam, lk.L, par.phi, lk.rho_crit, par.T)
      ELSE Zero
 
 \* (3.3) + (3.7) + (3.8)
